@@ -124,3 +124,17 @@ CHECKS["C12"] = {
         {"pkg": "gbnprop", "run": "TestC12BlockingTransport", "checks": (2, 12), "shards": (1, 2), "timeout": (900, 5400)},
     ],
 }
+
+CHECKS["C10"] = {
+    "level": "exploration",
+    "rule": ("rapid-generated handshake scenarios in virtual time: drop/dup/delay scripts (<=12 decisions per direction, delays around the handshake timeout) applied from the first packet, "
+             "up to 5 stale packets of every type (SYN with the same/other N incl. 255 and 0, SYNACK, DATA, ACK, NACK, FIN) queued in either direction before anyone starts, all client N, drawn start offsets, "
+             "both sides in retry loops (as Server.Accept / Client.Dial use the package) with drawn retry delay, keepalive on (drawn ping/pong, RTT below pong and below the handshake timeout). "
+             "Safety oracle: a server attempt that enters the data phase has n (hook) equal to a SYN value that was handed to it, n != 255 and s = n+1; when data flows between the client and a server attempt their n agree. "
+             "Progress oracle: within 10 x (4*handshake + 4*resend + ping+pong + retry + RTT + start offset) after the faults ceased some pair of live attempts has exchanged a message in both directions. "
+             "Non-trivial: a SYN/SYNACK was faulted or a stale packet preceded the first SYN; distinct by case."),
+    "assumptions": ["convergence is checked with keepalive enabled (see DESIGN.md 5/C10)", "transport model vnet.Link"],
+    "units": [
+        {"pkg": "gbnprop", "run": "TestC10Handshake", "checks": (2000, 30000), "shards": (1, 8), "timeout": (900, 5400), "gomaxprocs": [16, 1, 2, 4]},
+    ],
+}
